@@ -223,16 +223,19 @@ MANIFEST = {
             "not a GeometryCollection, the only hypothesis being the property's own domain (relateImpl_point_eq_spec_noCollection_partial). "
             "(15) Specification, linear x linear (any two lists of curves): every cell with a boundary in it (IB, BI, BB, BE, EB) is 0 exactly when some "
             "point has that pair of locations, F otherwise (relateSpec_linear_boundary_cells); Line x Line: BB, IB, BI, BE, EB in closed form "
-            "(relateSpec_line_line_boundary_cells) — with II and EE seven of the nine cells; IE / EI (a segment not covered by the other has an elementary "
-            "sub-segment off it) open. "
+            "(relateSpec_line_line_boundary_cells), and IE = 1 iff some point of the open first segment is off the second, never 0 — such a point is not a "
+            "vertex of the arrangement, the midpoint of its elementary sub-segment has the same two locations (C02X locate_const) — EI transposed, EE = 2 "
+            "(relateSpec_line_line_exterior_cells): with II all nine cells of the specification for two segments are characterised by point-set "
+            "conditions (cell_complete for Line x Line). "
             "Open there: GeometryCollections (rows proved for one-kind collections, whole matrix on the graph path for linear ones; DimsSpec of a "
             "collection, the Exterior row of areal / point collections and 'an envelope implies an edge' missing; collections mixing kinds only occur "
             "with empty members). The disjoint-envelope shortcut on the whole validity domain, polygons with holes "
             "included: 'hole coordinates in the reported rectangle' and 'rings closed' follow from validity (C02X dom_facts), so relateImpl = relateSpec "
             "for domain operands with non-intersecting rectangles wherever HasDimensions agrees with the specification "
             "(relateImpl_disjoint_eq_spec_dom_partial; remaining hypothesis DimsSpec: interior face sample of a valid polygon, collections). "
-            "Not proved: relateImpl = relateSpec when neither operand is a point: Line x Line, LineString x LineString and beyond (needs the cells IE / EI "
-            "of two segments and the mutual-intersection phase of the algorithm — proper crossings, edge splitting — against the arrangement vertices).",
+            "Not proved: relateImpl = relateSpec when neither operand is a point: Line x Line, LineString x LineString and beyond (the specification side of Line x Line is "
+            "complete; needs the mutual-intersection phase of the algorithm — proper crossings, edge splitting, stars with edge ends of both operands — "
+            "against the arrangement vertices).",
     "note": "Trusted: Lean kernel + audited axioms; the harness/generators (sampling); spec adequacy S1/S2. Defects found by this check and repaired in /repo: "
             "Triangle vertical edge (29720670), MultiPolygon shared vertex (5f41a6da), MultiLineString boundary_dimensions mod-2 (17c66966). The algorithm of "
             "relate is now modelled (relateImpl) and compared with the code on valid and invalid operands; K10 as seen from relate (subnormal coordinate: two "
